@@ -229,10 +229,12 @@ func TestVerifC20(t *testing.T) {
 			}
 			continue
 		}
+		agreed := true
 		for _, v := range runC20Case(kit.Case{Index: i, Steps: []kit.M{one}}, tpls, rep) {
+			agreed = agreed && v.OK
 			rep.Put(v)
 		}
-		if len(kept) < 60000 {
+		if agreed && len(kept) < 60000 { // later passes only for cases whose first evaluation agreed
 			kept = append(kept, c20Kept{i, one})
 		}
 	}
